@@ -223,6 +223,14 @@ def t_tree_case(t, system=None, licensed=None, max_leaves=6, tok_exclude='', ja_
     else:
         toks = [(gen_tok.t_token_ja if use_ja_tokens else gen_tok.t_token_en)(t, tok_exclude) for _ in range(n)]
     case = {'system': system, 'licensed': bool(licensed), 'deriv': deriv_json(d), 'tokens': toks}
+    if n >= 2 and t.tail(6) % 3 == 0:
+        # a word that occurs twice in the sentence: two tokens equal in every attribute (what the default
+        # annotation gives for a repeated word), in half of these cases one Token object standing at both positions
+        j = t.tail(7) % n
+        k = (j + 1 + t.tail(8) % (n - 1)) % n
+        toks[k] = dict(toks[j])
+        if t.tail(9) % 2:
+            case['same_token_object'] = [j, k]
     # results of a multi-process parse reach the caller through pickle; some callers copy them
     origin = ('built', 'built', 'pickled', 'deep-copied')[t.tail(5) % 4]
     if origin != 'built':
@@ -240,11 +248,19 @@ def _via(obj, origin):
     return obj
 
 
+def tokens_of_case(case):
+    from vlib import gen_tok
+    tokens = [gen_tok.make_token(tk) for tk in case['tokens']]
+    so = case.get('same_token_object')
+    if so and max(so) < len(tokens):
+        tokens[so[1]] = tokens[so[0]]
+    return tokens
+
+
 def tree_of_case(case, tokens=None):
     """tokens: Token objects to use (the parser shares one Token list between the n-best trees of a sentence)"""
-    from vlib import gen_tok
     if tokens is None:
-        tokens = [gen_tok.make_token(tk) for tk in case['tokens']]
+        tokens = tokens_of_case(case)
         return _via(build_tree(deriv_from_json(case['deriv']), tokens), case.get('origin'))
     return build_tree(deriv_from_json(case['deriv']), tokens)
 
@@ -252,8 +268,7 @@ def tree_of_case(case, tokens=None):
 def sentence_trees(sent):
     """the trees of one n-best list, sharing their Token objects as parser output does (also after a trip
     through pickle: the list travels as one object)"""
-    from vlib import gen_tok
-    tokens = [gen_tok.make_token(tk) for tk in sent[0]['tokens']]
+    tokens = tokens_of_case(sent[0])
     return _via([tree_of_case(tc, tokens) for tc in sent], sent[0].get('origin'))
 
 
